@@ -61,7 +61,7 @@ def run_scratch(sid, checks):
     out = {}
     try:
         for c in checks:
-            env = dict(os.environ, VERIF_SHRINK_S="20", ELIOT_SRC=scratch)
+            env = dict(os.environ, VERIF_SHRINK_S="20", ELIOT_SRC=scratch, VERIF_REPLAY_DIR=scratch + "/replays")
             p = sh("cd %s && /venv/bin/python check.py %s --tier quick" % (VERIF, c), env=env)
             lines = p.stdout.strip().split("\n")
             summary = lines[-1] if lines else ""
@@ -72,7 +72,6 @@ def run_scratch(sid, checks):
             print(c, "exit", p.returncode, "|", summary[:300])
     finally:
         sh("rm -rf %s" % scratch)
-        sh("rm -f %s/replays/*.json" % VERIF)
     mp = os.path.join(d, "meta.json")
     meta = json.load(open(mp))
     meta.setdefault("checks", {}).update(out)
